@@ -208,7 +208,7 @@ pub fn jobs() -> Vec<Job> {
             for ii in 0..12 {
                 if e.pi[ii].is_some() && seen.insert((e.packed, ii)) {
                     // all 12 integer types only for STANDARD and two radices; two types elsewhere
-                    let all_types = e.name == "STANDARD" || e.name == "R16" || e.name == "R3";
+                    let all_types = e.name == "STANDARD" || e.name == "R16" || e.name == "R3" || m.base_prefix != 0 || m.base_suffix != 0;
                     if all_types || ii == 8 || ii == 3 || ii == 2 || ii == 9 {
                         v.push(Job { entry: i, ty: Ty::Int(ii), punct: 0 });
                     }
@@ -242,9 +242,16 @@ fn suffix_strategy(m: &FormatModel, ty: Ty, o: &OptModel) -> BoxedStrategy<Vec<u
     let sep = m.digit_separator;
     let sfx = m.base_suffix;
     let pfx = m.base_prefix;
+    let bb = gen::boundary_bytes(rx.mant.max(rx.exp));
+    let (bb1, bb2, bb3) = (bb.clone(), bb.clone(), bb.clone());
+    let sepc = sep.max(b'_');
     let tail = prop_oneof![
         2 => Just(vec![]),
         2 => any::<u8>().prop_map(|b| vec![b]),
+        // bytes next to the digit ranges (alone, after a separator, before another digit)
+        2 => any::<u16>().prop_map(move |i| vec![bb1[gen::pick(i, bb1.len())]]),
+        1 => any::<u16>().prop_map(move |i| vec![sepc, bb2[gen::pick(i, bb2.len())]]),
+        1 => any::<u16>().prop_map(move |i| vec![bb3[gen::pick(i, bb3.len())], b'1']),
         1 => Just(vec![sep.max(b'_')]),
         1 => Just(vec![b'+']),
         1 => Just(vec![b'-']),
@@ -271,11 +278,12 @@ fn suffix_strategy(m: &FormatModel, ty: Ty, o: &OptModel) -> BoxedStrategy<Vec<u
             for (pos, b) in muts {
                 if !out.is_empty() {
                     let p = gen::pick(pos, out.len());
-                    out[p] = match b % 5 {
+                    out[p] = match b % 6 {
                         0 => sep.max(b'_'),
                         1 => b'+',
                         2 => ec,
                         3 => pt,
+                        4 => bb[(b as usize / 6) % bb.len()],
                         _ => b,
                     };
                 }
